@@ -12,11 +12,6 @@ use gv::{quote, quote_bytes, Args, Out};
 use serde_json::json;
 use std::collections::BTreeMap;
 
-#[path = "c19/derive.rs"]
-mod derive;
-#[path = "c19/typed.rs"]
-mod typed;
-
 const DRIVER: &str = include_str!("c19/driver.glu");
 
 pub struct Drv {
@@ -49,6 +44,11 @@ macro_rules! call {
         res
     }};
 }
+
+#[path = "c19/derive.rs"]
+mod derive;
+#[path = "c19/typed.rs"]
+mod typed;
 
 impl Drv {
     pub fn new() -> Drv {
@@ -628,27 +628,93 @@ fn gen_json(rng: &mut Rng, depth: u32) -> serde_json::Value {
     }
 }
 
-/// exact equality (floats by bit pattern, ints never equal to floats)
-fn json_same(a: &serde_json::Value, b: &serde_json::Value) -> bool {
+/// 0 = exactly the same (floats by bit pattern, ints never equal to floats); 1 = same except that some
+/// floats differ (by value); 2 = different.
+fn json_diff(a: &serde_json::Value, b: &serde_json::Value) -> u8 {
     use serde_json::Value as V;
     match (a, b) {
-        (V::Null, V::Null) => true,
-        (V::Bool(x), V::Bool(y)) => x == y,
+        (V::Null, V::Null) => 0,
+        (V::Bool(x), V::Bool(y)) => if x == y { 0 } else { 2 },
         (V::Number(x), V::Number(y)) => {
-            if x.is_f64() || y.is_f64() {
-                x.is_f64() && y.is_f64() && x.as_f64().unwrap().to_bits() == y.as_f64().unwrap().to_bits()
-            } else {
-                x.as_i64() == y.as_i64() && x.as_i64().is_some()
-            }
+            if x.is_f64() && y.is_f64() {
+                if x.as_f64().unwrap().to_bits() == y.as_f64().unwrap().to_bits() { 0 } else { 1 }
+            } else if x.is_f64() || y.is_f64() {
+                2
+            } else if x.as_i64() == y.as_i64() && x.as_i64().is_some() { 0 } else { 2 }
         }
-        (V::String(x), V::String(y)) => x == y,
-        (V::Array(x), V::Array(y)) => x.len() == y.len() && x.iter().zip(y).all(|(a, b)| json_same(a, b)),
+        (V::String(x), V::String(y)) => if x == y { 0 } else { 2 },
+        (V::Array(x), V::Array(y)) => {
+            if x.len() != y.len() { return 2; }
+            x.iter().zip(y).map(|(a, b)| json_diff(a, b)).max().unwrap_or(0)
+        }
         (V::Object(x), V::Object(y)) => {
-            x.len() == y.len() && x.iter().zip(y).all(|((k1, a), (k2, b))| k1 == k2 && json_same(a, b))
+            if x.len() != y.len() { return 2; }
+            x.iter().zip(y).map(|((k1, a), (k2, b))| if k1 == k2 { json_diff(a, b) } else { 2 }).max().unwrap_or(0)
         }
-        _ => false,
+        _ => 2,
     }
 }
+
+/// Replay files are read back with serde_json, whose float parsing is the very thing that is inexact:
+/// floats travel as bit patterns.
+pub fn bits_encode(v: &serde_json::Value) -> serde_json::Value {
+    use serde_json::Value as V;
+    match v {
+        V::Number(n) if n.is_f64() => json!({"$f64bits": format!("{:016x}", n.as_f64().unwrap().to_bits())}),
+        V::Array(a) => V::Array(a.iter().map(bits_encode).collect()),
+        V::Object(o) => V::Object(o.iter().map(|(k, v)| (k.clone(), bits_encode(v))).collect()),
+        _ => v.clone(),
+    }
+}
+pub fn bits_decode(v: &serde_json::Value) -> serde_json::Value {
+    use serde_json::Value as V;
+    match v {
+        V::Object(o) if o.len() == 1 && o.contains_key("$f64bits") => {
+            let b = u64::from_str_radix(o["$f64bits"].as_str().unwrap_or("0"), 16).unwrap_or(0);
+            serde_json::Number::from_f64(f64::from_bits(b)).map(V::Number).unwrap_or(V::Null)
+        }
+        V::Array(a) => V::Array(a.iter().map(bits_decode).collect()),
+        V::Object(o) => V::Object(o.iter().map(|(k, v)| (k.clone(), bits_decode(v))).collect()),
+        _ => v.clone(),
+    }
+}
+
+/// Replace every JSON number token that has a fraction or exponent by `F` (outside strings).
+pub fn mask_floats(t: &str) -> String {
+    let b: Vec<char> = t.chars().collect();
+    let mut o = String::new();
+    let mut i = 0;
+    while i < b.len() {
+        let c = b[i];
+        if c == '"' {
+            o.push(c);
+            i += 1;
+            while i < b.len() {
+                o.push(b[i]);
+                if b[i] == '\\' {
+                    i += 1;
+                    if i < b.len() { o.push(b[i]); }
+                } else if b[i] == '"' {
+                    break;
+                }
+                i += 1;
+            }
+            i += 1;
+        } else if c == '-' || c.is_ascii_digit() {
+            let st = i;
+            while i < b.len() && (b[i].is_ascii_digit() || "+-.eE".contains(b[i])) { i += 1; }
+            let tok: String = b[st..i].iter().collect();
+            if tok.contains('.') || tok.contains('e') || tok.contains('E') { o.push('F') } else { o.push_str(&tok) }
+        } else {
+            o.push(c);
+            i += 1;
+        }
+    }
+    o
+}
+
+pub const FLOAT_FP: &str = "json:de-float-off-by-ulp";
+pub const FLOAT_WHAT: &str = "std.json.de reads a float printed by std.json.ser as a different float (serde_json without float_roundtrip): de (ser v) /= v";
 
 fn json_kind(v: &serde_json::Value) -> String {
     use serde_json::Value as V;
@@ -663,7 +729,7 @@ fn json_kind(v: &serde_json::Value) -> String {
 }
 
 fn run_json(drv: &mut Drv, out: &mut Out, v: &serde_json::Value, verbose: bool) {
-    let replay = json!({"area": "json", "value": v});
+    let replay = json!({"area": "json", "value": bits_encode(v)});
     // 1. Value --marshal--> gluon --std.json.ser.to_string--> text
     let text = call!(drv, "json_ser_value", fn(serde_json::Value) -> String, v.clone());
     if verbose {
@@ -677,26 +743,34 @@ fn run_json(drv: &mut Drv, out: &mut Out, v: &serde_json::Value, verbose: bool) 
             return;
         }
     };
-    match serde_json::from_str::<serde_json::Value>(&text) {
-        Ok(p) if json_same(&p, v) => {}
-        _ => out.oracle_fail("json:ser-text", "text produced by std.json.ser does not denote the value (serde_json reading)", replay.clone()),
+    // the canonical compact text (serde_json printing is exact; its *parsing* of floats is not)
+    if text != serde_json::to_string(v).unwrap() {
+        out.oracle_fail("json:ser-text", "text produced by std.json.ser is not the compact JSON text of the value", replay.clone());
     }
     // 2. text --std.json.de--> gluon Value --marshal--> Value : must be the value we started from
     let back = call!(drv, "json_de_value", fn(String) -> serde_json::Value, text.clone());
     if verbose {
         println!("de: {:?}", back);
     }
+    let mut float_off = false;
     match back {
-        Ok(b) if json_same(&b, v) => {}
-        Ok(_) => out.oracle_fail("json:roundtrip-value", "de (ser v) is not v", replay.clone()),
+        Ok(b) => match json_diff(&b, v) {
+            0 => {}
+            1 => {
+                float_off = true;
+                out.oracle_fail(FLOAT_FP, FLOAT_WHAT, replay.clone());
+            }
+            _ => out.oracle_fail("json:roundtrip-value", "de (ser v) is not v", replay.clone()),
+        },
         Err(e) => out.oracle_fail("json:de-error", &format!("deserialising serialised text failed: {}", e.lines().next().unwrap_or("")), replay.clone()),
     }
     // 3. entirely inside gluon: text -> Value -> text -> Value -> text
     match call!(drv, "json_rt", fn(String) -> Vec<String>, text.clone()) {
         Ok(ts) if ts.len() == 2 && ts[0] == text && ts[1] == text => {}
+        Ok(ts) if float_off && ts.len() == 2 && mask_floats(&ts[0]) == mask_floats(&text) && mask_floats(&ts[1]) == mask_floats(&text) => {}
         _ => out.oracle_fail("json:roundtrip-text", "ser (de t) differs from t for t = ser v", replay.clone()),
     }
-    out.class(format!("json:{}", json_kind(v)));
+    out.class(format!("json:{}{}", json_kind(v), if float_off { ":float-off" } else { "" }));
 }
 
 // ----------------------------------------------------------------------------------------- main
@@ -713,7 +787,7 @@ fn replay(drv: &mut Drv, out: &mut Out, case: &serde_json::Value) {
         "arr" => run_arr(drv, out, geti("op"), &getv("xs"), &getv("ys"), geti("p"), geti("q"), true),
         "sint" => run_sint(drv, out, geti("op"), &gets("s"), &gets("t"), geti("i"), true),
         "sstr" => run_sstr(drv, out, geti("op"), &gets("s"), &gets("t"), geti("i"), geti("j"), true),
-        "json" => run_json(drv, out, &case["value"], true),
+        "json" => run_json(drv, out, &bits_decode(&case["value"]), true),
         "derive" => derive::replay(drv, out, case),
         "typed" => typed::replay(drv, out, case),
         a => println!("unknown replay area {:?}", a),
@@ -810,7 +884,14 @@ fn main() {
             gen_ints(&mut rng, false)
         };
         let n = xs.len() as i64;
-        let (p, q) = if op <= 1 { (rng.range(-2, n + 2), rng.range(-2, n + 2)) } else { (rng.range(-3, 9), 0) };
+        let (p, q) = if op == 1 && rng.chance(1, 2) {
+            let a = rng.range(0, n);
+            (a, rng.range(a, n))
+        } else if op <= 1 {
+            (rng.range(-2, n + 2), rng.range(-2, n + 2))
+        } else {
+            (rng.range(-3, 9), 0)
+        };
         run_arr(&mut drv, &mut out, op, &xs, &ys, p, q, false);
         if out.n_cases % 23 == 0 {
             let s = call!(drv, "arr_show", fn(Vec<i64>) -> String, xs.clone());
@@ -848,7 +929,17 @@ fn main() {
             run_sint(&mut drv, &mut out, op, &s, &t, i, false);
         } else {
             let op = *rng.pick(&[0i64, 0, 0, 0, 1, 2, 2, 3, 3, 4, 5, 6]);
-            let (i, j) = if op == 0 && rng.chance(1, 2) { (i.min(j), i.max(j)) } else { (i, j) };
+            let (i, j) = if op == 0 && rng.chance(1, 2) {
+                // two real boundaries, in order
+                let b = boundaries(&s);
+                let a = rng.below(b.len() as u64) as usize;
+                let c = a + rng.below((b.len() - a) as u64) as usize;
+                (b[a] as i64, b[c] as i64)
+            } else if op == 0 && rng.chance(1, 2) {
+                (i.min(j), i.max(j))
+            } else {
+                (i, j)
+            };
             run_sstr(&mut drv, &mut out, op, &s, &t, i, j, false);
         }
     }
